@@ -42,8 +42,13 @@ def pool_row(rows, jc, scn, base, files, plan, res, what, mrows=None):
         cleaned = bool(o.get("cleaned")) and res.results.get(url) is True
         fin = R.pool_listing(base / "mirror" / P.repo_dir(url)) if cleaned else None
         if mrows is not None and "meta_queue" in o and o.get("selected"):
-            mt, mw = R.meta_tie_row(o, files[url], faults.get(url, {}))
-            mrows.append((dict(jc, run=what), mt, mw, {"queued": len(o["meta_queue"]),
+            pub = None
+            if o.get("published") and res.results.get(url) is True:
+                pub = {"dists/" + k: (v[1], v[3]) for k, v in
+                       P.tree_listing(base / "mirror" / P.repo_dir(url) / "dists", with_content=False).items()
+                       if v[0] == "f" and not (k.count("/") == 1 and k.rsplit("/", 1)[1] in ("InRelease", "Release", "Release.gpg"))}
+            mt, mw = R.meta_tie_row(o, files[url], faults.get(url, {}), pub)
+            mrows.append((dict(jc, run=what), mt, mw, {"queued": len(o["meta_queue"]), "published": pub is not None,
                                                        "counted": bool(o.get("meta_err") or o.get("meta_miss"))}))
         term, want = R.pool_tie_row(o, files[url], faults.get(url, {}), fin)
         rows.append((dict(jc, run=what), term, want,
@@ -189,6 +194,7 @@ def run(rep: C.Report):
         rep.count("meta_tie.runs")
         rep.count("meta_tie.queued_files", m["queued"])
         rep.count("meta_tie.stage_counted_a_failure", int(m["counted"]))
+        rep.count("meta_tie.published_view_compared", int(m.get("published", False)))
     mism, errors = C.run_mismatch_shards(rep.prop, "meta", mheader, "m_meta", "eq_pool", [(a, b) for _, a, b, _ in mrows], shard=25)
     C.tie_verdict(rep, "meta", mism, errors, [c for c, _, _, _ in mrows], found, header=mheader, fn="m_meta",
                   coq_inputs=[a for _, a, _, _ in mrows])
